@@ -706,6 +706,13 @@ def _run_hist(case: dict, res: core.CaseResult) -> None:
     res.sample = dict(mini, end=list(_observe(T, tok)))
 
 
+def _hidden(tok: Any) -> str:
+    try:
+        return repr(sorted((k, repr(v)) for k, v in vars(tok).items() if k != 'store_handle'))
+    except TypeError:
+        return ''
+
+
 def _run_bfs(case: dict, res: core.CaseResult) -> None:
     """Fixpoint BFS (bounded by depth) over assignment histories from one initial token; a history is extended
     only when its end state (raw_text, value, indent) is new; states are rebuilt by replaying their history."""
@@ -713,7 +720,7 @@ def _run_bfs(case: dict, res: core.CaseResult) -> None:
     name = T.__name__
     ops = _ops(name)
     init = case['init']
-    seen = {_observe(T, _make(T, init))}
+    seen = {(_observe(T, _make(T, init)), _hidden(_make(T, init)))}
     frontier: list[list] = [[]]
     depth_done = 0
     complete = False
@@ -736,8 +743,11 @@ def _run_bfs(case: dict, res: core.CaseResult) -> None:
                 res.states.add(core.h64((name, 'st', st)))
                 if st != pre:
                     res.nontrivial.add(core.h64((name, 'st', st)))
-                if st not in seen:
-                    seen.add(st)
+                # deduplicate on the observable state AND everything the token object carries (a private cache that
+                # is stale but not yet visible is a different state with a different future)
+                full = (st, _hidden(tok))
+                if full not in seen:
+                    seen.add(full)
                     nxt.append(new)
         depth_done = depth
         frontier = nxt
